@@ -7,6 +7,10 @@
 (*   {"ev":"reset","now":t}               fresh plugin state, clock set to t    *)
 (*   {"ev":"adv","d":d}                   clock advanced by d ticks             *)
 (*   {"ev":"setw","r":..,"w":w}           window length of remedy r reconfigured *)
+(*   outcomes: "pass" = NoOp action; "block" = early response carrying the CONFIGURED    *)
+(*   rejection status of the remedy (config field Status; 0 / absent = not configured   *)
+(*   = 429).  Any other answer is recorded verbatim ("block-status-429", "other:..",    *)
+(*   "error:..") and is no outcome of the specification: the step is rejected.          *)
 (*   {"ev":"req","r":..,"g":..,"out":..}  one request handled on its own        *)
 (*   {"ev":"batch","r":..,"g":..,"n":n,"passes":p}  n overlapping requests for  *)
 (*        one key at one instant, p of them passed (compact form of begin/end)  *)
